@@ -364,6 +364,27 @@ fn run(ctx: &mut Ctx) {
             }
         }
     }
+    // deep headers: the wanted tag comes after many other tags
+    ctx.bound("deep_headers", "N module-alignment tags (N in 9..=13, 31..=33, 255..=257, 1000, 4095..=4097) in front of one instance of every kind; all 10 getters and the walk");
+    {
+        let deep = Arena::new(12);
+        for n in [9usize, 10, 11, 12, 13, 31, 32, 33, 255, 256, 257, 1000, 4095, 4096, 4097] {
+            let mut tags: Vec<Vec<u8>> = (0..n).map(|_| hd::words(hd::MODULE_ALIGN, 1, &[])).collect();
+            for k in 1..=10u16 {
+                if k != hd::MODULE_ALIGN {
+                    tags.push(hd::sample(k, 1, 2));
+                }
+            }
+            tags.push(hd::end_tag());
+            let h = hd::header(0, &tags, 0xF7);
+            let describe = || J::obj().set("part", "deep_headers").set("tags_in_front", n).set("header_len", h.len());
+            ctx.leaf(describe, |ctx| {
+                ctx.state(hash::hash_bytes(&h));
+                ctx.nontrivial();
+                exec(ctx, &deep, &h, &getters, "deep_headers");
+            });
+        }
+    }
     // long headers: tags on both sides of the offsets 8192 and 32768 the specification mentions
     let big = Arena::new(20);
     for n in [2030usize, 2038, 2039, 2040, 2041, 2042, 2043, 8182, 8183, 8184, 8185, 8186, 16384] {
